@@ -596,7 +596,9 @@ pub fn c06(ctx: &Ctx) {
 			}
 		)*}
 	}
-	bits!((u8, Lsb0), (u8, Msb0), (u16, Lsb0), (u16, Msb0), (u32, Lsb0), (u32, Msb0), (u64, Lsb0), (u64, Msb0));
+	bits!((u8, Lsb0), (u8, Msb0), (u16, Lsb0), (u16, Msb0), (u32, Lsb0), (u32, Msb0));
+	#[cfg(target_pointer_width = "64")]
+	bits!((u64, Lsb0), (u64, Msb0));
 	macro_rules! hold {
 		($($t:ty),*) => {$(
 			if mine(&mut job) {
